@@ -365,31 +365,6 @@ Fixpoint run_state (cfg : config) torc sorc (s : state) (ops : list op) : state 
   | o :: r => run_state cfg torc sorc (fst (step cfg torc sorc s o)) r
   end.
 
-(* ---------- overlapping requests ---------- *)
-(* Two requests in flight at the same time.  The code shares nothing between hosts of different
-   clusters (per-host caches, per-cluster clients), so the model executes them one after the other;
-   C12_overlap_commutes shows that for hosts of different clusters the order does not matter. *)
-Inductive xop :=
-| One (o : op)
-| Ovl (a b : op).      (* a is started first and its review is still in flight while b runs to completion *)
-
-Inductive xout :=
-| R1 (x : out)
-| R2 (x y : out).
-
-Definition stepx (cfg : config) torc sorc (s : state) (o : xop) : state * xout :=
-  match o with
-  | One a => let (s', x) := step cfg torc sorc s a in (s', R1 x)
-  | Ovl a b => let (s1, x) := step cfg torc sorc s a in
-               let (s2, y) := step cfg torc sorc s1 b in (s2, R2 x y)
-  end.
-
-Fixpoint runx (cfg : config) torc sorc (s : state) (ops : list xop) : list (xop * xout) :=
-  match ops with
-  | [] => []
-  | o :: r => let (s', x) := stepx cfg torc sorc s o in (o, x) :: runx cfg torc sorc s' r
-  end.
-
 (* ---------- boolean equalities used by the case evaluator ---------- *)
 Definition eclass_eqb (a b : eclass) : bool :=
   match a, b with
@@ -413,10 +388,77 @@ Definition out_eqb (a b : out) : bool :=
   | _, _ => false
   end.
 
+(* ---------- overlapping requests ---------- *)
+(* Two requests in flight at the same time.  The code shares nothing between hosts of different
+   clusters (per-host caches, per-cluster clients), so the model executes them one after the other;
+   C12_overlap_commutes shows that for hosts of different clusters the order does not matter. *)
+Inductive xop :=
+| One (o : op)
+| Ovl (a b : op)       (* a is started first and its review is still in flight while b runs to completion *)
+| Chain (h : host) (tok : string) (imp : option string) (now : Z).
+                       (* a request through the proxy handler chain: ExtraRequestInfo (Hostname = h), WithUpstreamInfo,
+                          bearer-token authentication, impersonation filter (imp = Impersonate-User), dispatcher *)
+
+Inductive xout :=
+| R1 (x : out)
+| R2 (x y : out)
+| RC (t : option out)           (* the token authentication, if the chain got that far *)
+     (z : option out)           (* the impersonation SubjectAccessReview, if one was made *)
+     (d : option cluster).      (* reached the dispatcher: the cluster it would forward to (ExtraRequestInfo.UpstreamCluster) *)
+
+(* attributes the impersonation filter asks about: may the authenticated user act as [target]? *)
+Definition imp_attrs (u : string * string) (target : string) : attrs :=
+  {| a_user := fst u; a_uid := snd u; a_groups := ["system:authenticated"%string]; a_isres := true;
+     a_ns := EmptyString; a_verb := "impersonate"%string; a_group := EmptyString; a_version := EmptyString;
+     a_resource := "users"%string; a_subres := EmptyString; a_name := target; a_path := EmptyString |}.
+
+(* WithAuthentication lets the request through iff ok and no error *)
+Definition authn_passes (x : out) : option (string * string) :=
+  match x with
+  | OutT r _ => if (t_ok r && eclass_eqb (t_err r) ENone)%bool then t_user r else None
+  | _ => None
+  end.
+(* the impersonation filter lets it through iff the decision is allow and there is no error *)
+Definition authz_passes (x : out) : bool :=
+  match x with
+  | OutS r _ => (decision_eqb (s_dec r) DAllow && eclass_eqb (s_err r) ENone)%bool
+  | _ => false
+  end.
+
+Definition stepx (cfg : config) torc sorc (s : state) (o : xop) : state * xout :=
+  match o with
+  | One a => let (s', x) := step cfg torc sorc s a in (s', R1 x)
+  | Ovl a b => let (s1, x) := step cfg torc sorc s a in
+               let (s2, y) := step cfg torc sorc s1 b in (s2, R2 x y)
+  | Chain h tok imp now =>
+      match cluster_of cfg h with
+      | None => (s, RC None None None)       (* WithUpstreamInfo: "the request cluster is not being proxied" *)
+      | Some c =>
+          let (s1, xt) := step cfg torc sorc s (OAuthn (Some h) tok now) in
+          match authn_passes xt with
+          | None => (s1, RC (Some xt) None None)                     (* 401 *)
+          | Some u =>
+              match imp with
+              | None => (s1, RC (Some xt) None (Some c))
+              | Some target =>
+                  let (s2, xz) := step cfg torc sorc s1 (OAuthz (Some h) (imp_attrs u target) now) in
+                  (s2, RC (Some xt) (Some xz) (if authz_passes xz then Some c else None))   (* else 403 *)
+              end
+          end
+      end
+  end.
+
+Fixpoint runx (cfg : config) torc sorc (s : state) (ops : list xop) : list (xop * xout) :=
+  match ops with
+  | [] => []
+  | o :: r => let (s', x) := stepx cfg torc sorc s o in (o, x) :: runx cfg torc sorc s' r
+  end.
+
 Definition xout_eqb (a b : xout) : bool :=
   match a, b with
   | R1 x, R1 y => out_eqb x y
   | R2 x1 y1, R2 x2 y2 => (out_eqb x1 x2 && out_eqb y1 y2)%bool
+  | RC t1 z1 d1, RC t2 z2 d2 => (opt_eqb out_eqb t1 t2 && opt_eqb out_eqb z1 z2 && opt_eqb String.eqb d1 d2)%bool
   | _, _ => false
   end.
 
